@@ -1390,6 +1390,10 @@ class ScopeSampler:
             kinds += ["UPD"] * 3
         if vis:
             kinds += ["CLOS"] * 3
+        top = scopes[-1]
+        own = [v for v in top["vars"] if v in self.NAMES and v not in top.get("ro", ())]
+        if own:
+            kinds += ["MDEF"] * 2
         if self.closures(scopes):
             kinds += ["CALL"] * 4
         if depth < self.max_depth and budget[0] >= 2:
@@ -1407,6 +1411,13 @@ class ScopeSampler:
                 e = self.expr(scopes)
                 top["vars"].append(n)
                 return [("decl", n, e)]
+        if k == "MDEF":
+            # multi-value ':=' that re-assigns a variable of this very block and declares a new one
+            old = rng.choice(own)
+            self.nclos += 1
+            nv = "md%d" % self.nclos
+            e1, e2 = self.expr(scopes), self.expr(scopes)
+            return [("raw", "%s, %s := %s, %s" % (old, nv, e1, e2)), ("effv", 5, nv)]
         if k == "UPD":
             n = rng.choice(wr)
             return [("assign", n, self.expr(scopes))]
@@ -1890,6 +1901,8 @@ def c12_injections():
     I.append(("yield_in_switch_init", [("raw", "switch Yield(a + 922); {\ncase g3:\n\tYield(b + 923)\n}")]))
     I.append(("go_yield", [("raw", "go Yield(a + 924)"), Y("b + 925")]))
     I.append(("yield_in_case_expr_call", [("raw", "switch {\ncase func() bool { rt.Emit(rt.EFF, 926); return g3 }():\n\tYield(a + 927)\n}")]))
+    I.append(("paren_yield", [("raw", "(Yield(a + 990))"), Y("b + 991")]))
+    I.append(("paren_yieldfrom", [("raw", "(YieldFrom(H2(a)))"), Y("b + 992")]))
     I.append(("yield_in_closure_called", [("raw", "cf := func() int { return a + 928 }"), Y("cf()")]))
     # negative controls: the construct inside a nested non-generator closure
     I.append(("ctl_defer_in_closure", [("raw", "func() {\n\tdefer rt.Emit(rt.EFF, 930)\n\trt.Emit(rt.EFF, 931)\n}()"), Y("a + 932")]))
